@@ -635,7 +635,7 @@ PROPS = {
             "Xet.Uploads.C16_latch",
             "Xet.Uploads.C16_prefix_F9_witness",
         ],
-        "suites": ["session_faults"],
+        "suites": ["session_faults", "session"],
         "level_text": "Over ALL sequences of register / task-completion / finalize events (any number of xorbs, any completion order and outcomes, events "
                       "after finalize): shard uploads start only when every put of the session completed successfully; a session whose finalize "
                       "returns Ok has all puts and shard uploads successful; any failed upload makes finalize fail and some API call return an error "
